@@ -113,13 +113,19 @@ class Report:
             self.notes.append(f"restructure gate not applied: {type(ex).__name__}: {ex}")
             return
         self.extra["restructured_files"] = rs
-        if not rs:
+        alld = shapes.all_distances(self.repo)
+        if not rs and not any(v >= shapes.THRESHOLD_RANGE for v in alld.values()):
             return
         for e in self.entries:
             if e.verdict != "VIOLATION" or shapes.shape_free(e.rule) or e.firm:
                 continue
             fn = (e.func or "")
             d = rs.get(e.file or "", 0)
+            if e.rule.startswith("R05."):
+                # range / contract analysis: own threshold; a call-site contract also depends on the kernel file named in its text
+                files = {e.file or ""} | set(re.findall(r"\b(\w+/c_\w+\.c)\b", (e.detail or "") + " " + (e.construct or "")))
+                dd = max([alld.get(f_, 0) for f_ in files] + [0])
+                d = dd if dd >= shapes.THRESHOLD_RANGE else 0
             if d:
                 e.verdict = "UNDECIDED"
                 e.detail = (f"[{e.file} was restructured since the rules were anchored (structural distance {d} >= {shapes.THRESHOLD}): the clause could not be "
